@@ -309,7 +309,7 @@ def single_worker_jobs(rng, tier, add):
 
 def big_find_jobs(rng, tier, add):
     # finds over 10^5 elements with chunks in the thousands: a late single match, matches in several chunks
-    for i in range(12 if tier == "quick" else 72):
+    for i in range(16 if tier == "quick" else 96):
         explicit = i % 2 == 1
         src = rng.choice(("vec", "range", "slice", "vec") if explicit else ("vec", "range", "iter", "iterx"))
         sh = rng.choice(["", "m", "f"]) if src not in ("range", "slice") else rng.choice(["", "f"])
